@@ -189,6 +189,8 @@ structure St (α : Type) where
 inductive Sol (α : Type) where
   | raph (a : V6 α) (hitMax : Bool)   -- SPFKinSpaceR: final guess, and whether the iteration budget ran out
   | fsolve (x : V6 α)                -- scipy.optimize.fsolve: the root it reports
+  | raised                           -- SPFKinSpaceR raised (singular Newton matrix)
+  | fix (T : T4 α)                   -- the top plate pose `_fixUpsideDown` arrives at (mirror + fsolve, not modelled)
 
 def nominal (p : Par α) : T4 α := ⟨M3.one, ⟨0, 0, p.nominalH⟩⟩
 
@@ -245,8 +247,9 @@ def validateDN (p : Par α) (s : St α) (limit : Nat) : Bool :=
   let v := if 3 < limit ∧ s.set3 then v && rotC p s else v
   v
 
-/-- `_FKRaphson`: what the platform does with the outcome of SPFKinSpaceR (one retry from the neutral pose) -/
-def fkRaphson (p : Par α) (s : St α) (bottom : T4 α) : List (Sol α) → Option (T4 α × T4 α × St α × List (Sol α))
+/-- `_FKRaphson(solve_fallback=False)`: what the platform does with the outcome of SPFKinSpaceR (one retry from the
+    neutral pose); an exception inside the kernel, like a second failure, resets the platform to the neutral pose -/
+def fkRaphsonNF (p : Par α) (s : St α) (bottom : T4 α) : List (Sol α) → Option (T4 α × T4 α × St α × List (Sol α))
   | Sol.raph a false :: o =>
     let coords := bottom * taaToTM a
     some (bottom, coords, setPlate (ikHelper s coords bottom) bottom coords, o)
@@ -256,37 +259,56 @@ def fkRaphson (p : Par α) (s : St α) (bottom : T4 α) : List (Sol α) → Opti
   | Sol.raph _ true :: Sol.raph _ true :: o =>
     let s := ikP s (bottom * nominal p) bottom
     some (s.Tb, s.Tt, s, o)
+  | Sol.raised :: o =>
+    let s := ikP s (bottom * nominal p) bottom
+    some (s.Tb, s.Tt, s, o)
+  | Sol.raph _ true :: Sol.raised :: o =>
+    let s := ikP s (bottom * nominal p) bottom
+    some (s.Tb, s.Tt, s, o)
   | _ => none
 
-/-- `_FKSolve` -/
+/-- `_FKSolve`: the fsolve root is normalised through its matrix; if the platform placed there does not have the requested
+    lengths (or is invalid) the platform is put back where FK started and `_FKRaphson` runs without further fallback -/
 def fkSolve (p : Par α) (s : St α) (L : List α) (bottom : T4 α) (protect : Bool) :
     List (Sol α) → Option (T4 α × T4 α × St α × List (Sol α))
   | Sol.fsolve x :: o =>
-    let sol := (angleMod (ofTAA x)).TM
-    let s := ikP s sol bottom
-    let bad := (List.zipWith (fun l n => decide ((0.00001 : α) < sabs (sabs l - sabs n))) L s.lens).any id
-    if bad || !validateDN p s 4 then fkRaphson p s bottom o
+    let sol := taaToTM x
+    let s1 := ikP s sol bottom
+    let bad := (List.zipWith (fun l n => decide ((0.00001 : α) < sabs (sabs l - sabs n))) L s1.lens).any id
+    if bad || !validateDN p s1 4 then fkRaphsonNF p (ikP s1 s.Tt bottom) bottom o
     else
-      let s := if protect then s else ikP s s.Tt s.Tb
-      some (bottom, sol, s, o)
+      let s2 := if protect then s1 else ikP s1 s1.Tt s1.Tb
+      some (bottom, sol, s2, o)
   | _ => none
+
+/-- `_FKRaphson` as FK calls it: an exception inside the kernel falls back to `_FKSolve` -/
+def fkRaphson (p : Par α) (s : St α) (L : List α) (bottom : T4 α) (protect : Bool) :
+    List (Sol α) → Option (T4 α × T4 α × St α × List (Sol α))
+  | Sol.raised :: o => fkSolve p s L bottom protect o
+  | Sol.raph a true :: Sol.raised :: o => fkSolve p s L bottom protect o
+  | o => fkRaphsonNF p s bottom o
 
 /-- the solver call of FK with the stored solver choice -/
 def fkSolver (p : Par α) (s : St α) (L : List α) (protect : Bool) (o : List (Sol α)) :
     Option (T4 α × T4 α × St α × List (Sol α)) :=
-  if s.fkMode = 0 then fkSolve p s L s.Tb protect o else fkRaphson p s s.Tb o
+  if s.fkMode = 0 then fkSolve p s L s.Tb protect o else fkRaphson p s L s.Tb protect o
 
-/-- after the solver: an upside-down result triggers the (unmodelled) repair; the relative transform is re-derived
-    from the poses the solver path returned -/
-def fkFinish (bottom top : T4 α) (s : St α) : St α :=
-  let s1 := if contC s then s else { s with repaired := true }
-  { s1 with rel := transInv bottom * top }
+/-- after the solver: an upside-down result is repaired (`_fixUpsideDown`: the repaired top pose is an oracle input) and
+    the derived state is rewritten from the repaired plates; the relative transform is that of the poses returned -/
+def fkFinish (bottom top : T4 α) (s : St α) (o : List (Sol α)) : Option (T4 α × St α × List (Sol α)) :=
+  if contC s then some (top, { s with rel := transInv bottom * top }, o)
+  else
+    match o with
+    | Sol.fsolve _ :: Sol.fix T' :: o' =>
+      let s1 := setPlate (ikHelper s T' s.Tb) s.Tb T'
+      some (T', { s1 with repaired := true }, o')
+    | _ => none
 
 /-- the solver part of FK and what follows it up to (not including) validation -/
 def fkCore (p : Par α) (s : St α) (L : List α) (o : List (Sol α)) (protect : Bool) : Option (T4 α × St α × List (Sol α)) :=
   match fkSolver p s L protect o with
   | none => none
-  | some (bottom, top, s', o') => some (top, fkFinish bottom top s', o')
+  | some (bottom, top, s', o') => fkFinish bottom top s' o'
 
 /-- index of the first smallest / first largest element (what Python's `min` / `max` return a view of) -/
 def argBest (better : α → α → Bool) : List α → Nat → Nat → α → Nat
